@@ -31,7 +31,21 @@ type Case struct {
 
 func u64(v *big.Int) uint64 { return v.Uint64() }
 
+var otherCallersFirst sync.Once
+
 func check(c Case, o *stats.Obs) error {
+	// In the first-use legs the first thing the process does with the package is what its other exported
+	// helpers do: count 48-bit and 80-bit signal cells (wider than any field this property asks for).
+	if stats.FirstUse() {
+		otherCallersFirst.Do(func() {
+			b := make([]byte, 64)
+			for i := range b {
+				b[i] = byte(i*37 + 1)
+			}
+			utils.GetNumberOfSignalCells(b, 0, 80)
+			utils.GetNumberOfSignalCells(b, 3, 48)
+		})
+	}
 	buf, pos, w := []byte(c.Buf), c.Pos, c.Width
 	if w < 1 || w > 64 || pos < 0 || pos+w > len(buf)*8 {
 		o.Skip = true
